@@ -242,9 +242,18 @@ func TestWorker(t *testing.T) {
 	fpNT := map[uint64]struct{}{}
 	states := map[string]struct{}{}
 	t0 := time.Now()
+	// progress marker: if code under test panics on one of its own goroutines the process dies with no
+	// summary; the driver reads the index of the run that was executing from here and replays that run
+	var curF *os.File
+	if out != "" {
+		curF, _ = os.Create(out + ".cur")
+	}
 	for run := from; run < to; run++ {
 		if time.Since(t0) > wallBudget {
 			break
+		}
+		if curF != nil {
+			_, _ = curF.WriteAt([]byte(fmt.Sprintf("%012d", run)), 0)
 		}
 		tp := tape.New(seed64, id, run)
 		info, _ := json.Marshal(violationOut{Seed: seed64, Run: run})
